@@ -196,7 +196,20 @@ func TestVerifCrash(t *testing.T) {
 	if tier == "thorough" {
 		nstores, cycles, quota, nkeys = 4, 40, 1500, 2500
 	}
-	for s := 0; s < nstores; s++ {
+	// one extra directory is a "reopen soak": many cycles of open / one store / SIGKILL, never a clean close and only an
+	// occasional read-back, so that whatever a kill leaves behind (WAL files to replay, level-0 tables) accumulates as fast
+	// as it can: a store that stops reopening after a few dozen kills is seen in the quick tier too.
+	soakCycles := 32
+	if tier == "thorough" {
+		soakCycles = 80
+	}
+	mainCycles, mainQuota, mainKeys := cycles, quota, nkeys
+	for s := 0; s <= nstores; s++ {
+		soak := s == nstores
+		cycles, quota, nkeys := mainCycles, mainQuota, mainKeys
+		if soak {
+			cycles, quota, nkeys = soakCycles, 1, 40
+		}
 		cid := fmt.Sprintf("crash%d", s+1)
 		dir := filepath.Join(out, "crashdb-"+cid)
 		os.RemoveAll(dir)
@@ -217,6 +230,9 @@ func TestVerifCrash(t *testing.T) {
 				killAfter = 0 // during / right after Open
 			case 1:
 				killAfter = quota // after the whole quota: the child is idle, nothing in flight
+			}
+			if soak {
+				killAfter = 1
 			}
 			delay := time.Duration(r.Intn(1500)) * time.Microsecond
 			ch := c16start(t, append(base, "VERIF_CRASH_MODE=store", "VERIF_CRASH_START="+strconv.Itoa(next), "VERIF_CRASH_COUNT="+strconv.Itoa(quota)))
@@ -303,8 +319,11 @@ func TestVerifCrash(t *testing.T) {
 			if end >= next {
 				next = end + 1
 			}
+			if soak && c%8 != 0 && c != cycles {
+				continue // soak directory: read back only now and then
+			}
 			// ---- verify child: reopen, read everything back
-			clean := r.Intn(2) == 0
+			clean := r.Intn(2) == 0 && !soak
 			env := append(base, "VERIF_CRASH_MODE=verify")
 			how := "kill"
 			if clean {
